@@ -697,6 +697,10 @@ func execValue(q, script string) hx.Result {
 			if bad {
 				res.Fail = "a value with a reachable reference cycle is not (always) rejected as circular: outcomes " + trunc(ks, 80)
 				res.Class = g.cycleClass(cycle)
+				if q == "N" && (set["crash"] || set["timeout"]) {
+					// repaired in 060d8e9c (on-path set in BuildParamToNative): seeing it again is a regression, not the known detector finding
+					res.Class = "native-marshal-diverges"
+				}
 			}
 			return res
 		}
@@ -1201,12 +1205,9 @@ func gen(r *hx.Rand, tier string, i int) string {
 	raw := genScript(r, mode)
 	q := []string{"S", "S", "S", "D", "D", "N"}[r.Intn(6)]
 	if q == "N" {
-		// BuildParamToNative has no size limit: a fat cyclic value would fill the memory before the stack; keep it thin
-		// (dies by stack overflow in a grandchild, ~0.3 s) and rare
-		if len(graphOf(build(raw)).firstCycle()) == 0 || r.Chance(12) {
-			return "N " + raw
-		}
-		q = "S"
+		// BuildParamToNative has no size limit: if it ever recursed into a cycle again a fat value would fill the memory
+		// before the stack; keep the value thin (a reversion dies by stack overflow in the grandchild, ~0.3 s)
+		return "N " + raw
 	}
 	return q + " " + fatten(r, raw)
 }
@@ -1242,6 +1243,8 @@ func main() {
 			"S A;p0,z1048568", "S A;p0,z1048569", "S A;p0,z524288;p0,z524288", "S A;p0,z524282;p0,z524282", "S Rz1048576", "S Rz1048570", "S Rz1048571",
 			"S Ri-57896044618658097711785492504343953926634992332820282019728792003956564819968", "S Ri115792089237316195423570985008687907853269984665640564039457584007913129639935",
 			"N A;p0,i300;p0,b0102;p0,T;S;p1,i-1;p0,r1", "N M", "N A;M;p0,r1",
+			// cycles that run through a map value: BuildParamToNative refuses the map before entering it
+			"N A;M;p0,i1;p0,r1;k1,i0,r0", "N S;M;p0,r1;k1,i0,r0;k1,i1,i5", "N A;A;M;p0,i1;p0,r1;p1,i2;p1,r2;k2,b01,r0", "N A;S;p0,b-;p0,r1;p1,T;p1,r0", "N S;p0,i1;p0,i2;p0,r0",
 			// byte strings
 			"X -", "X 00", "X 0000", "X 0101", "X 0102", "X 0100", "X 02", "X 0200", "X 0201ff", "X 0202ffff", "X 020180", "X 03", "X 40", "X 8000", "X 8100", "X 8200",
 			"X 80fd0000", "X 8001", "X 80ff0000000000000080", "X 80ffffffffffffffffff", "X 82ff000000000000008000", "X 820180000101", "X 82010101010201",
